@@ -435,4 +435,6 @@ def run(run, model):
     run.try_rule(r19_2, model)
     run.try_rule(r19_3, model)
     run.try_rule(r19_4, model)
+    # a binder is visible in its own arm only: a name in a later arm keeps denoting the outer variable (shared with C05 R05.1)
+    run.try_rule(_c05.r05_1, model)
     run.assume("Go's keyword list is the constant oracle (25 keywords, Go spec)")
